@@ -147,6 +147,7 @@ static int pnc_is_allowed(const char *key)
     return 0;
 }
 
+static int pnc_excused_now;      /* set around a pnc_fail() call whose excess is explained by the header's declared counts */
 #if defined(__GNUC__)
 __attribute__((format(printf, 4, 5)))
 #endif
@@ -158,7 +159,7 @@ static void pnc_fail(struct stats *st, const char *cls, const char *what, const 
     va_start(ap, fmt);
     vsnprintf(f.detail, sizeof f.detail, fmt, ap);
     va_end(ap);
-    if (pnc_is_allowed(f.key)) {
+    if (pnc_is_allowed(f.key) || pnc_excused_now) {
         st->allowed++;
         if (st->nallowed < PNC_MAXFAIL) st->allowed_last[st->nallowed++] = f;
         return;
@@ -223,8 +224,28 @@ static int pnc_past_magic(const uint8_t *d, size_t n)
  *   neg64      CDF-5 numrecs or a dimension length >= 2^63 (accepted as a negative MPI_Offset -> FPE, negative lengths)
  * The walk is a filter heuristic, not an oracle: where it disagrees with the library the input is either evaluated
  * (and may end the process, which the drivers survive) or skipped (and counted). */
-struct pnc_scan { uint64_t max_ndims, max_att_nelems; int neg64; };
-static uint64_t pnc_skip_ndims_t, pnc_skip_att_t; static int pnc_skip_neg64, pnc_skip_on;
+struct pnc_scan {
+    uint64_t max_ndims, max_att_nelems; int neg64;
+    /* what the header's own count fields declare (named exclusion "count_fields_trusted", see pnc_open_one):
+     * decl_single = largest single allocation request, decl_alloc = generous total (8x the pointer arrays, 1x attribute
+     * values, 32 bytes per declared variable dimension), decl_read = bytes the parser will consume for declared
+     * attribute values and dimids */
+    uint64_t decl_single, decl_alloc, decl_read;
+};
+static uint64_t pnc_skip_ndims_t, pnc_skip_att_t; static int pnc_skip_neg64, pnc_skip_on, pnc_excuse_on;
+#define PNC_SAT ((uint64_t)1 << 62)
+static void pnc_decl(struct pnc_scan *sc, uint64_t single, uint64_t total, uint64_t rd)
+{
+    if (single > sc->decl_single) sc->decl_single = single;
+    sc->decl_alloc = (total >= PNC_SAT || sc->decl_alloc + total >= PNC_SAT) ? PNC_SAT : sc->decl_alloc + total;
+    sc->decl_read = (rd >= PNC_SAT || sc->decl_read + rd >= PNC_SAT) ? PNC_SAT : sc->decl_read + rd;
+}
+static void pnc_decl_list(struct pnc_scan *sc, uint64_t n)
+{
+    /* NCI_Calloc(PNETCDF_RNDUP(n, 64), sizeof(pointer)); the int round-up overflows for n > INT_MAX-63 */
+    if (n > 0x7fffffffu - 63) pnc_decl(sc, PNC_SAT, PNC_SAT, 0);
+    else pnc_decl(sc, (n + 63) / 64 * 64 * 8, (n + 63) / 64 * 64 * 64, 0);
+}
 
 static uint64_t pnc_rd(const uint8_t *d, size_t n, uint64_t pos, int w)
 {
@@ -235,9 +256,11 @@ static uint64_t pnc_rd(const uint8_t *d, size_t n, uint64_t pos, int w)
 static int pnc_scan_atts(const uint8_t *d, size_t n, uint64_t *pos, int w, int maxtype, uint64_t lim, struct pnc_scan *sc)
 {
     static const int tsz[12] = {0, 1, 1, 2, 4, 4, 8, 1, 2, 4, 8, 8};
-    *pos += 4;
+    uint64_t tag = pnc_rd(d, n, *pos, 4); *pos += 4;
     uint64_t na = pnc_rd(d, n, *pos, w); *pos += (uint64_t)w;
     if (na > 0x7fffffff) return -1;
+    if (na && tag != 12) return -1;
+    if (na) pnc_decl_list(sc, na);
     for (uint64_t a = 0; a < na; a++) {
         if (*pos > lim) return -1;                     /* far past EOF: zero nc_type -> NC_EBADTYPE */
         uint64_t nl = pnc_rd(d, n, *pos, w); *pos += (uint64_t)w;
@@ -247,7 +270,9 @@ static int pnc_scan_atts(const uint8_t *d, size_t n, uint64_t *pos, int w, int m
         if (t < 1 || t > (uint64_t)maxtype) return -1;
         uint64_t ne = pnc_rd(d, n, *pos, w); *pos += (uint64_t)w;
         if (ne > sc->max_att_nelems) sc->max_att_nelems = ne;
-        if (ne > ((uint64_t)1 << 40)) return -1;       /* allocation fails or everything after it is zero fill */
+        if (ne >> 63) return -1;                       /* negative nelems: nothing allocated (skip class att_nelems) */
+        if (ne > ((uint64_t)1 << 40)) { pnc_decl(sc, PNC_SAT, PNC_SAT, 0); return -1; }   /* allocation fails */
+        pnc_decl(sc, (ne * (uint64_t)tsz[t] + 3) / 4 * 4, (ne * (uint64_t)tsz[t] + 3) / 4 * 4, (ne * (uint64_t)tsz[t] + 3) / 4 * 4);
         *pos += (ne * (uint64_t)tsz[t] + 3) / 4 * 4;
     }
     return 0;
@@ -260,9 +285,11 @@ static void pnc_scan(const uint8_t *d, size_t n, struct pnc_scan *sc)
     uint64_t pos = 4, lim = (uint64_t)n + 64;
     if (w == 8 && (pnc_rd(d, n, pos, 8) >> 63)) sc->neg64 = 1;
     pos += (uint64_t)w;
-    pos += 4;
+    uint64_t tag = pnc_rd(d, n, pos, 4); pos += 4;
     uint64_t nd = pnc_rd(d, n, pos, w); pos += (uint64_t)w;
     if (nd > 0x7fffffff) return;
+    if (nd && tag != 10) return;
+    if (nd) pnc_decl_list(sc, nd);
     for (uint64_t i = 0; i < nd; i++) {
         if (pos > lim) return;                         /* second all-zero dimension -> NC_EUNLIMIT */
         uint64_t nl = pnc_rd(d, n, pos, w); pos += (uint64_t)w;
@@ -272,9 +299,11 @@ static void pnc_scan(const uint8_t *d, size_t n, struct pnc_scan *sc)
         pos += (uint64_t)w;
     }
     if (pnc_scan_atts(d, n, &pos, w, maxtype, lim, sc)) return;
-    pos += 4;
+    tag = pnc_rd(d, n, pos, 4); pos += 4;
     uint64_t nv = pnc_rd(d, n, pos, w); pos += (uint64_t)w;
     if (nv > 0x7fffffff) return;
+    if (nv && tag != 11) return;
+    if (nv) pnc_decl_list(sc, nv);
     for (uint64_t i = 0; i < nv; i++) {
         if (pos > lim) return;
         uint64_t nl = pnc_rd(d, n, pos, w); pos += (uint64_t)w;
@@ -283,6 +312,7 @@ static void pnc_scan(const uint8_t *d, size_t n, struct pnc_scan *sc)
         uint64_t k = pnc_rd(d, n, pos, w); pos += (uint64_t)w;
         if (k > 0x7fffffff) return;
         if (k > sc->max_ndims) sc->max_ndims = k;
+        pnc_decl(sc, k * 8, k * 32, k * (uint64_t)w);  /* shape[], dsizes[], dimids[] of ncmpio_new_NC_var + dispatcher copy */
         if (k > 65536 && nd == 0) return;              /* first dimid is out of range */
         pos += k * (uint64_t)w;
         if (pnc_scan_atts(d, n, &pos, w, maxtype, lim, sc)) return;
@@ -293,7 +323,9 @@ static void pnc_scan(const uint8_t *d, size_t n, struct pnc_scan *sc)
 }
 static void pnc_skip_init(void)
 {
-    const char *e = getenv("PNC_OPEN_SKIP"), *q;
+    const char *e = getenv("PNC_OPEN_EXCUSE_DECLARED"), *q;
+    pnc_excuse_on = (e && *e == '1');
+    e = getenv("PNC_OPEN_SKIP");
     if (!e || !*e) return;
     pnc_skip_on = 1;
     pnc_skip_ndims_t = pnc_skip_att_t = UINT64_MAX;
@@ -457,9 +489,10 @@ static int pnc_open_one(const uint8_t *data, size_t size, struct stats *st)
     MPI_Offset cur0 = 0, cur1 = 0, max0 = 0, max1 = 0;
 
     st->nfail = st->nallowed = 0;
+    struct pnc_scan sc;
+    memset(&sc, 0, sizeof sc);
+    if (pnc_skip_on || pnc_excuse_on) pnc_scan(data, size, &sc);
     if (pnc_skip_on) {                   /* named exclusions by input filter: not evaluated, counted */
-        struct pnc_scan sc;
-        pnc_scan(data, size, &sc);
         int why = sc.max_ndims >= pnc_skip_ndims_t ? 0 : sc.max_att_nelems >= pnc_skip_att_t ? 1 : (pnc_skip_neg64 && sc.neg64) ? 2 : -1;
         if (why >= 0) {
             st->skipped[why]++;
@@ -502,10 +535,18 @@ static int pnc_open_one(const uint8_t *data, size_t size, struct stats *st)
         if (err != NC_NOERR) pnc_fail(st, "close_failed", "close", "ncmpi_close returned %d", err);
     }
 
-    /* resource bounds */
+    /* resource bounds.  Named exclusion "count_fields_trusted" (PNC_OPEN_EXCUSE_DECLARED=1): the known finding is that list
+     * nelems, attribute nelems and variable ndims are used as allocation sizes / loop bounds without relating them to the
+     * file size (and hdr_fetch zero-fills past EOF).  An excess over the bounds is excused - counted, not reported - only to
+     * the extent that these count fields of THIS input declare it; anything beyond is still a failure. */
     long bound_reads = (long)((size + PNC_HDR_CHUNK - 1) / PNC_HDR_CHUNK) + 2;
-    if (open_reads > bound_reads)
-        pnc_fail(st, "resource", "header_reads", "%ld MPI_File_read calls in ncmpi_open of a %zu-byte file (bound %ld)", open_reads, size, bound_reads);
+    if (open_reads > bound_reads) {
+        uint64_t ex = pnc_excuse_on ? sc.decl_read / (PNC_HDR_CHUNK - 16) + 2 : 0;
+        pnc_excused_now = pnc_excuse_on && (uint64_t)(open_reads - bound_reads) <= ex;
+        pnc_fail(st, "resource", "header_reads", "%ld MPI_File_read calls in ncmpi_open of a %zu-byte file (bound %ld; declared by count fields: %llu bytes)",
+                 open_reads, size, bound_reads, (unsigned long long)sc.decl_read);
+        pnc_excused_now = 0;
+    }
     ncmpi_inq_malloc_max_size(&max1);
     ncmpi_inq_malloc_size(&cur1);
     int64_t bound_heap = (int64_t)(1 << 20) + 8 * (int64_t)size;
@@ -516,14 +557,19 @@ static int pnc_open_one(const uint8_t *data, size_t size, struct stats *st)
     int64_t left = (int64_t)((uint64_t)cur1 - (uint64_t)cur0);
     if (peak > bound_heap) {
         heap_broken = 1;
-        pnc_fail(st, "resource", "heap", "peak traced heap %lld bytes for a %zu-byte file (bound %lld)", (long long)peak, size, (long long)bound_heap);
+        pnc_excused_now = pnc_excuse_on && (uint64_t)(peak - bound_heap) <= sc.decl_alloc;
+        pnc_fail(st, "resource", "heap", "peak traced heap %lld bytes for a %zu-byte file (bound %lld; declared by count fields: %llu)",
+                 (long long)peak, size, (long long)bound_heap, (unsigned long long)sc.decl_alloc);
+        pnc_excused_now = 0;
     } else if (bound_heap < pnc_alloc_cap && (left < 0 || left > pnc_alloc_cap)) {
         /* An allocation request above the harness cap (ASAN max_allocation_size_mb / RLIMIT_AS) returned NULL.  The
          * malloc trace books the requested size (modulo 2^64) for the NULL pointer and never releases it, so the
          * traced total moved by more than the cap, or wrapped.  The request itself breaks the heap bound. */
         heap_broken = 1;
-        pnc_fail(st, "resource", "heap", "an allocation above the %lld-byte cap was requested for a %zu-byte file (traced total moved by %lld; bound %lld)",
-                 (long long)pnc_alloc_cap, size, (long long)left, (long long)bound_heap);
+        pnc_excused_now = pnc_excuse_on && sc.decl_single > (uint64_t)pnc_alloc_cap;
+        pnc_fail(st, "resource", "heap", "an allocation above the %lld-byte cap was requested for a %zu-byte file (traced total moved by %lld; bound %lld; largest declared request %llu)",
+                 (long long)pnc_alloc_cap, size, (long long)left, (long long)bound_heap, (unsigned long long)sc.decl_single);
+        pnc_excused_now = 0;
     }
     /* nothing left behind */
     nopen = -1;
